@@ -50,6 +50,7 @@ var Mutants = map[string][]Mutant{
 		{"empty Q returns P for And", "path_intersection.go", `if op == opAND \{\n\t\t\treturn &Path\{\}\n\t\t\}\n\t\treturn ps\.Settle\(fillRule\)`, `return ps.Settle(fillRule)`, "E9.shortcut"},
 	},
 	"C02": {
+		{"contour builder selects the next edge by the static result flag (seed C02l)", "path_intersection.go", `\} else if 0 < nodes\[i\]\.inResult && nodes\[i\]\.open == first\.open \{`, "} else if nodes[i].resultEdge && nodes[i].open == first.open {", "E9.stitch-selects-unconsumed"},
 		{"upward scan of a tolerance square leaves Lower unset", "path_intersection.go", `(\t\t\t\t\tsquare\.Upper = next\n)\t\t\t\t\tif square\.Lower == nil \{\n(?:\t\t\t\t\t\t[^\n]*\n)+?\t\t\t\t\t\}\n`, "${1}", "E9.square-range-both-ends"},
 		{"status Remove rebalances once instead of every ancestor", "path_intersection.go", `for ; ancestor != nil; ancestor = ancestor\.parent \{`, "if ancestor != nil {", "E9.moved-node-height"},
 		{"result windings copied to the other end point for left-to-right edges only", "path_intersection.go", `(?s)(\t\t\t\tif cur\.left && !first\.open \{\n\t\t\t\t\t// we go to the right/top\n\t\t\t\t\tcur\.resultWindings\+\+\n)(\t\t\t\t\}\n)\t\t\t\tcur\.other\.resultWindings = cur\.resultWindings\n`, "${1}\t\t\t\t\tcur.other.resultWindings = cur.resultWindings\n${2}", "E9.windings-sync"},
@@ -91,6 +92,7 @@ var Mutants = map[string][]Mutant{
 		{"ToPDF forgets ReplaceArcs", "path.go", `\tp = p\.ReplaceArcs\(\)\n\n\tsb := strings\.Builder\{\}\n\tvar x, y float64\n\tfor i := 0; i < len\(p\.d\); \{\n\t\tcmd := p\.d\[i\]\n\t\tswitch cmd \{\n\t\tcase MoveToCmd:\n\t\t\tx, y = p\.d\[i\+1\], p\.d\[i\+2\]\n\t\t\tfmt\.Fprintf\(&sb, " %v %v m"`, "\tsb := strings.Builder{}\n\tvar x, y float64\n\tfor i := 0; i < len(p.d); {\n\t\tcmd := p.d[i]\n\t\tswitch cmd {\n\t\tcase MoveToCmd:\n\t\t\tx, y = p.d[i+1], p.d[i+2]\n\t\t\tfmt.Fprintf(&sb, \" %v %v m\"", "E10.consumer"},
 	},
 	"C04": {
+		{"clockwise miter-clip corner interpolated from the right-hand end point (seed C04m)", "path_stroke.go", `mid1 := lEnd\.Interpolate\(mid, t\)`, "mid1 := rEnd.Interpolate(mid, t)", "E11.joiner-sides-consistent"},
 		{"second inflection range ends on the curve, not on the offset", "path_util.go", `(?s)(\tif t2max < 1\.0 \{.*?)addCubicBezierLine\(p, q0, q1, q2, q3, 0\.0, d\)`, "${1}p.LineTo(q0.X, q0.Y)", "E11.offset-vertices-use-offset"},
 		{"inner bend steps back by the length of a line", "path_stroke.go", `ai := i - cmdLen\(p\.d\[i-1\]\)`, "ai := i - cmdLen(LineToCmd)", "E2.backward-step-known-kind"},
 		{"end normals of a cubic from the raw derivative", "path_stroke.go", `n1 := cubicBezierNormal\(start, cp1, cp2, end, 1\.0, halfWidth\)`, "n1 := cubicBezierDeriv(start, cp1, cp2, end, 1.0).Rot90CW().Norm(halfWidth)", "E11.bezier-normal-helper"},
@@ -129,6 +131,7 @@ var Mutants = map[string][]Mutant{
 		{"arc cut relative to the arc start", "path.go", `ellipseSplit\(rx, ry, phi, cx, cy, startTheta, theta2, theta\)`, `ellipseSplit(rx, ry, phi, cx, cy, theta1, theta2, theta)`, "E11.cut-carried"},
 	},
 	"C06": {
+		{"inflection nudge decided against the ray's normal (seed C06o)", "path_intersection_util.go", `if 0\.0 < deriv\.PerpDot\(deriv3\) \{`, "if A.Dot(deriv3) < 0.0 {", "E9.nudge-side-from-tangent"},
 		{"line-ellipse quadratic: B of the other elimination", "path_intersection_util.go", `B = 2\.0 \* b \* d \* e`, "B = 2.0 * a * c * e", "E9.ellipse-quadratic-mirror"},
 		{"cubic direction uses the start chords at the end", "path_util.go", `(\} else if Equal\(t, 1\.0\) \{\n\t\t\tif deriv = )p3\.Sub\(p1\)`, "${1}p2.Sub(p0)", "E9.direction-fallback-symmetric"},
 		{"pending hit replaced when the next hit lies elsewhere", "path.go", `\n\t\t\} else if prev == nil \{`, "\n\t\t} else if prev == nil || !prev.Point.Equals(z.Point) {", "E9.pending-not-overwritten"},
@@ -171,6 +174,7 @@ var Mutants = map[string][]Mutant{
 		{"Join passes radians to ArcTo", "path.go", `p\.ArcTo\(d\[1\], d\[2\], d\[3\]\*180\.0/math\.Pi, large, sweep, d\[5\], d\[6\]\)`, `p.ArcTo(d[1], d[2], d[3], large, sweep, d[5], d[6])`, "E8.units"},
 	},
 	"C08": {
+		{"Bounds guarded by Empty, FastBounds by the length (seed C08m)", "path.go", `(func \(p \*Path\) Bounds\(\) Rect \{\n\tif )len\(p\.d\) < 4`, "${1}p.Empty()", "E3.bounds-guard-agreement"},
 		{"radii correction rotates the chord by +phi", "path_util.go", `(?s)(func ellipseRadiiCorrection\(.*?)x1p := \(cosphi\*diff\.X \+ sinphi\*diff\.Y\) / 2\.0\n\ty1p := \(-sinphi\*diff\.X \+ cosphi\*diff\.Y\) / 2\.0`, "${1}x1p := (cosphi*diff.X - sinphi*diff.Y) / 2.0\n\ty1p := (sinphi*diff.X + cosphi*diff.Y) / 2.0", "E3.ellipse-frame"},
 		{"Transform keeps the arc rotation for |m00| == |m11|", "path.go", `(?s)(func \(p \*Path\) Transform\(m Matrix\) \*Path \{.*?\t\t\tend := Point\{p\.d\[i\+5\], p\.d\[i\+6\]\}\n)(\n\t\t\t// For ellipses written as the conic)`, "${1}\t\t\tif Equal(m[0][1], 0.0) && Equal(m[1][0], 0.0) && Equal(math.Abs(m[0][0]), math.Abs(m[1][1])) {\n\t\t\t\tif xscale*yscale < 0.0 {\n\t\t\t\t\tsweep = !sweep\n\t\t\t\t}\n\t\t\t\tend = m.Dot(end)\n\t\t\t\tp.d[i+1], p.d[i+2], p.d[i+4] = rx*math.Abs(m[0][0]), ry*math.Abs(m[0][0]), fromArcFlags(large, sweep)\n\t\t\t\tp.d[i+5], p.d[i+6] = end.X, end.Y\n\t\t\t\ti += cmdLen(cmd)\n\t\t\t\tcontinue\n\t\t\t}\n${2}", "E11.arc-rotation-rewritten"},
 		{"quad bounds: the y extreme only when there is no x extreme", "path.go", `(?s)(\t\t\tif tdenom := \(start\.X - 2\*cp\.X \+ end\.X\); !Equal\(tdenom, 0\.0\) \{\n(?:\t\t\t\t[^\n]*\n)+?\t\t\t\})\n\n(\t\t\tymin = math\.Min\(ymin, end\.Y\)\n\t\t\tymax = math\.Max\(ymax, end\.Y\)\n)\t\t\tif (tdenom := \(start\.Y - 2\*cp\.Y \+ end\.Y\))`, "${2}${1} else if ${3}", "E3.axes-exclusive"},
@@ -207,6 +211,7 @@ var Mutants = map[string][]Mutant{
 		{"quad case reads offset 5", "path.go", `\t\tcase QuadToCmd:\n\t\t\tcp := Point\{p\.d\[i\+1\], p\.d\[i\+2\]\}\n\t\t\tend = Point\{p\.d\[i\+3\], p\.d\[i\+4\]\}\n\t\t\txmin = math\.Min\(xmin, math\.Min\(cp\.X, end\.X\)\)`, "\t\tcase QuadToCmd:\n\t\t\tcp := Point{p.d[i+1], p.d[i+2]}\n\t\t\tend = Point{p.d[i+5], p.d[i+6]}\n\t\t\txmin = math.Min(xmin, math.Min(cp.X, end.X))", "E2.layout"},
 	},
 	"C10": {
+		{"Coords compares end points bit for bit (seed C10n)", "path.go", `!coords\[len\(coords\)-1\]\.Equals\(Point\{p\.d\[i-3\], p\.d\[i-2\]\}\)`, "coords[len(coords)-1] != (Point{p.d[i-3], p.d[i-2]})", "E11.point-compare-tolerant"},
 		{"QuadTo line test from the start only", "path.go", `\(start\.Equals\(cp\) \|\| angleEqual\(end\.Sub\(start\)\.AngleBetween\(cp\.Sub\(start\)\), 0\.0\)\) && \(end\.Equals\(cp\) \|\| angleEqual\(end\.Sub\(start\)\.AngleBetween\(end\.Sub\(cp\)\), 0\.0\)\)`, "(start.Equals(cp) || end.Equals(cp) || angleEqual(end.Sub(start).AngleBetween(cp.Sub(start)), 0.0))", "E11.quad-line-test-mirror"},
 		{"Arc hands the rotation in degrees to EllipsePos", "path.go", `p0 := EllipsePos\(rx, ry, phi, 0\.0, 0\.0, theta0\)`, "p0 := EllipsePos(rx, ry, rot, 0.0, 0.0, theta0)", "E8.units"},
 		{"status Remove rebalances once instead of every ancestor", "path_intersection.go", `for ; ancestor != nil; ancestor = ancestor\.parent \{`, "if ancestor != nil {", "E9.moved-node-height"},
@@ -283,6 +288,7 @@ var Mutants = map[string][]Mutant{
 		{"PS eofill outside its guard", "renderers/ps/ps.go", `r\.w\.Write\(\[\]byte\(" fill"\)\)\n\t\t\}\n\t\tif style\.HasStroke\(\) && !strokeUnsupported \{\n\t\t\tr\.w\.Write\(\[\]byte\(" grestore"\)\)`, "r.w.Write([]byte(\" eofill\"))\n\t\t}\n\t\tif style.HasStroke() && !strokeUnsupported {\n\t\t\tr.w.Write([]byte(\" grestore\"))", "E6.enum"},
 	},
 	"C13": {
+		{"soft mask declared with one bit per sample (seed C13o)", "renderers/pdf/writer.go", `(\t\t\t\t"ColorSpace":       pdfName\("DeviceGray"\),\n\t\t\t\t"BitsPerComponent": )8,`, "${1}1,", "E5.image-sample-depth"},
 		{"catalog written before the language is added", "renderers/pdf/writer.go", `(?s)(\tif w\.lang != "" \{\n\t\tcatalog\["Lang"\] = encode\(w\.lang\)\n\t\}\n)(.*?)(\tw\.objOffsets\[0\] = w\.pos\n\tw\.write\("%v 0 obj\\n", 1\)\n\tw\.writeVal\(catalog\)\n\tw\.write\("\\nendobj\\n"\)\n)`, "${3}${1}${2}", "E5.dict-complete-before-write"},
 		{"DeviceGray declared for every grey colour model", "renderers/pdf/writer.go", `if _, ok := img\.\(\*image\.Gray\); ok \{`, "if m := img.ColorModel(); m == color.GrayModel || m == color.Gray16Model {", "E5.jpeg-colorspace"},
 		{"gradients with fewer than two stops get an empty function dictionary (reverts fix 1e751a6)", "renderers/pdf/writer.go", `(?s)\tif len\(stops\) == 0 \{\n[^\n]*\n\t\treturn patternStopFunction\(canvas\.Stop\{\}, canvas\.Stop\{\}\)\n\t\} else if len\(stops\) == 1 \{\n\t\treturn patternStopFunction\(stops\[0\], stops\[0\]\)\n\t\}\n`, "\tif len(stops) < 2 {\n\t\treturn pdfDict{}\n\t}\n", "E5.function-dict-never-empty"},
@@ -363,6 +369,7 @@ var Mutants = map[string][]Mutant{
 		{"setter writes the stack", "canvas.go", `func \(c \*Context\) SetStrokeWidth\(width float64\) \{\n`, "func (c *Context) SetStrokeWidth(width float64) {\n\tc.stack = nil\n", "E11.ctx-setter"},
 	},
 	"C16": {
+		{"cluster offset advanced by the rune count (seed C16n)", "text.go", `clusterOffset \+= uint32\(len\(run\.Text\)\)`, "clusterOffset += uint32(len([]rune(run.Text)))", "E11.cluster-offset-bytes"},
 		{"item boundary only where text and object placeholder meet", "text/text.go", `objectReplacementBoundary := r == unicode\.ReplacementChar \|\| 0 < j && runes\[j-1\] == unicode\.ReplacementChar`, "objectReplacementBoundary := 0 < j && (r == unicode.ReplacementChar) != (runes[j-1] == unicode.ReplacementChar)", "E11.object-own-item"},
 		{"vertical justify step multiplied by the line index", "text.go", `(?s)\t\tdy := 0\.0\n\t\tfor j := range t\.lines \{\n\t\t\tt\.lines\[j\]\.y \+= dy\n\t\t\tdy \+= ddy\n\t\t\}`, "\t\tfor j := range t.lines {\n\t\t\tt.lines[j].y += float64(j) * ddy\n\t\t}", "E4.unbounded-quotient-not-multiplied"},
 		{"unwrapped lines count the white space after a break (reverts fix 6632432)", "text.go", `if !lineStart \|\| item\.Type != text\.GlueType \{`, "if lineStart || !lineStart {", "E11.nowrap-width-skips-leading-glue"},
@@ -387,6 +394,7 @@ var Mutants = map[string][]Mutant{
 		{"Text.Heights uses the first line's top", "text.go", `\t_, ascent, _, _ := firstLine\.Heights\(t\.WritingMode\)`, "\tascent, _, _, _ := firstLine.Heights(t.WritingMode)", "E3.line-heights"},
 	},
 	"C17": {
+		{"first line exempt from the fitness charge (seed C17n)", "text/linebreak.go", `if 1\.0 < math\.Abs\(float64\(c-active\.Fitness\)\) \{`, "if 0 < active.Line && 1.0 < math.Abs(float64(c-active.Fitness)) {", "E4.fitness-charge-on-classes-only"},
 		{"glue after a forbidden penalty tried as a breakpoint", "text/linebreak.go", `if 0 < b && lb\.items\[b-1\]\.Type == BoxType && \(`, "if 0 < b && lb.items[b-1].Type != GlueType && (", "E4.glue-after-box"},
 		{"node dropped at a penalty because of the penalty's own width", "text/linebreak.go", `tooLong = lb\.width < \(lb\.W-active\.W\)-\(lb\.Z-active\.Z\)`, "tooLong = true", "E4.deactivation-without-penalty-width"},
 		{"line width computed at node creation", "text/linebreak.go", `(Fitness:  c,\n\t+)Width:    width,\n`, "${1}Width:    width - A[c].W,\n", "E11.break-width"},
